@@ -107,7 +107,117 @@ def nested_case(case, res=None):
     return out
 
 
+def foreign_case(case, res=None):
+    """A table as another producer may write it: fewer table:table-column declared than the rows hold cells
+    ("Rows may have different widths"; odfdo reads it). No grid model is defined for such a table, so only the
+    C02 relation is judged: after cache-warming reads and each edit that does not raise, live answers = fresh
+    parse of the table's own XML = independent expansion.
+    case = {"cols": [repeat...], "rows": [[row_repeat, [[value, cell_repeat]...]]...], "ops": [...]}"""
+    import random
+
+    from odfdo import Column, Element, Row
+
+    T = 'xmlns:table="urn:oasis:names:tc:opendocument:xmlns:table:1.0" xmlns:office="urn:oasis:names:tc:opendocument:xmlns:office:1.0" xmlns:text="urn:oasis:names:tc:opendocument:xmlns:text:1.0"'
+    xml = [f'<table:table {T} table:name="F">']
+    for r in case["cols"]:
+        xml.append("<table:table-column" + (f' table:number-columns-repeated="{r}"' if r > 1 else "") + "/>")
+    for rr, cells in case["rows"]:
+        xml.append("<table:table-row" + (f' table:number-rows-repeated="{rr}"' if rr > 1 else "") + ">")
+        for v, cr in cells:
+            rep = f' table:number-columns-repeated="{cr}"' if cr > 1 else ""
+            if v is None:
+                xml.append(f"<table:table-cell{rep}/>")
+            else:
+                xml.append(f'<table:table-cell{rep} office:value-type="float" office:value="{v}"><text:p>{v}</text:p></table:table-cell>')
+        xml.append("</table:table-row>")
+    xml.append("</table:table>")
+    t = Element.from_tag("".join(xml))
+    rng = random.Random(case.get("k", 0))
+    out = TH.check_coherence(t, rng)
+    if out:
+        return [("foreign:" + m, d) for m, d in out]
+    for i, op in enumerate(case["ops"]):
+        o = op["op"]
+        try:
+            for w in op.get("warm", []):
+                if w == "get_row":
+                    t.get_row(op.get("y", 0) % max(t.height, 1))
+                elif w == "get_values":
+                    t.get_values()
+                elif w == "get_cell":
+                    t.get_cell((op.get("x", 0), op.get("y", 0) % max(t.height, 1)))
+                elif w == "traverse":
+                    [r.get_values() for r in t.traverse()]
+                elif w == "columns":
+                    list(t.traverse_columns())
+            if o == "insert_column":
+                t.insert_column(op["x"], Column() if op.get("obj") else None)
+            elif o == "append_column":
+                t.append_column(Column() if op.get("obj") else None)
+            elif o == "delete_column":
+                t.delete_column(op["x"])
+            elif o == "set_value":
+                t.set_value((op["x"], op["y"] % max(t.height, 1)), op["v"])
+            elif o == "insert_row":
+                t.insert_row(op["y"] % (t.height + 1), Row(op.get("w", 1)))
+            elif o == "delete_row":
+                t.delete_row(op["y"] % max(t.height, 1))
+            elif o == "append_row":
+                t.append_row(Row(op.get("w", 1)))
+            elif o == "set_column_values":
+                t.set_column_values(op["x"], [op["v"]] * t.height)
+            elif o == "insert_cell":
+                from odfdo import Cell
+
+                t.insert_cell((op["x"], op["y"] % max(t.height, 1)), Cell(op["v"]))
+        except Exception:
+            # undefined territory ("Longer rows shouldn't exist!"): a refusal is not judged, the state after it is
+            if res is not None:
+                res.count("foreign_op_raised")
+        if res is not None:
+            res.judge()
+            res.cls(("foreign-underdeclared", o, "+".join(op.get("warm", [])) or "cold", "x-vs-declared=" + ("?" if "x" not in op else "in" if op["x"] < sum(case["cols"]) else "edge" if op["x"] == sum(case["cols"]) else "beyond")), True)
+        v = TH.check_coherence(t, rng)
+        if v:
+            return [("foreign:" + m + "@" + o, dict(d, step=i, op=op) if isinstance(d, dict) else d) for m, d in v]
+    return []
+
+
+def gen_foreign(rng):
+    ncols = rng.choice([[1], [2], [1, 1], [2, 1], [3]])
+    declared = sum(ncols)
+    rows = []
+    for _ in range(rng.randint(1, 4)):
+        cells = []
+        width = 0
+        target = declared + rng.randint(0, 3)
+        while width < target:
+            cr = rng.choice([1, 1, 1, 2, 3])
+            cells.append([rng.choice([None, rng.randint(1, 99)]), cr])
+            width += cr
+        rows.append([rng.choice([1, 1, 2, 3]), cells])
+    ops = []
+    for _ in range(rng.randint(1, 5)):
+        ops.append({
+            "op": rng.choice(["insert_column", "insert_column", "append_column", "delete_column", "set_value", "insert_row", "delete_row", "append_row", "set_column_values", "insert_cell"]),
+            "x": rng.randint(0, declared + 3), "y": rng.randrange(12), "v": rng.randint(100, 999), "w": rng.randint(1, declared + 2), "obj": rng.random() < 0.5,
+            "warm": rng.sample(["get_row", "get_values", "get_cell", "traverse", "columns"], rng.randint(0, 3)),
+        })
+    return {"cols": ncols, "rows": rows, "ops": ops, "k": rng.randrange(10**6)}
+
+
 def run(ctx, res):
+    for c in range(60 if ctx.quick else 4000):
+        rng = ctx.rng("foreign", c)
+        case = {"foreign": gen_foreign(rng)}
+        try:
+            v = foreign_case(case["foreign"], res)
+        except Exception as e:
+            import traceback
+
+            v = [(f"foreign:harness-raised:{type(e).__name__}", {"tb": traceback.format_exc()[-800:]})]
+        for m, d in v[:1]:
+            res.violation(m, d, {"case": case})
     for c in range(20 if ctx.quick else 400):
         rng = ctx.rng("nested", c)
         vals = TL.Vals()
@@ -155,6 +265,8 @@ def replay(case):
     rng = random.Random(0)
     if "nested" in case["case"]:
         return [{"mechanism": m, "detail": d} for m, d in nested_case(case["case"]["nested"])]
+    if "foreign" in case["case"]:
+        return [{"mechanism": m, "detail": d} for m, d in foreign_case(case["case"]["foreign"])]
 
     def on_step(i, t, g, op, info):
         return TH.check_coherence(t, rng, doc=getattr(t, "_vf_doc", None))
